@@ -174,7 +174,8 @@ struct TcpNameserver {
     tcp: Option<tokio::net::TcpStream>,
     tcp_last_send_activity: Instant,
     tcp_last_recv_activity: Instant,
-    qid2reply: std::collections::HashMap<u16, Responder<super::dnspkt::DNSPkt>>,
+    /* id on the wire -> (id the caller chose, where to send the reply) */
+    qid2reply: std::collections::HashMap<u16, (u16, Responder<super::dnspkt::DNSPkt>)>,
 }
 
 impl TcpNameserver {
@@ -220,19 +221,34 @@ impl TcpNameserver {
     }
 
     async fn send_tcp_reply(&mut self, qid: u16, reply: Result<super::dnspkt::DNSPkt, Error>) {
-        if let Some(resp) = self.qid2reply.remove(&qid) {
-            resp.send(reply).unwrap();
+        if let Some((orig_qid, resp)) = self.qid2reply.remove(&qid) {
+            resp.send(reply.map(|mut pkt| {
+                pkt.qid = orig_qid;
+                pkt
+            }))
+            .unwrap();
         } else {
             log::error!("Sending reply to unknown request: {:?}", reply);
         }
     }
 
-    async fn send_tcp_query(&mut self, msg: TcpNameserverMessage) -> Result<(), Error> {
-        assert!(
-            self.qid2reply
-                .insert(msg.out_query.qid, msg.out_reply)
-                .is_none()
-        ); // TODO: Collisions!
+    async fn send_tcp_query(&mut self, mut msg: TcpNameserverMessage) -> Result<(), Error> {
+        /* The id must be unique among the queries in flight on this connection.  If the
+         * caller's id is taken, use the next free one on the wire; the caller's id is put
+         * back into the reply.
+         */
+        let orig_qid = msg.out_query.qid;
+        if self.qid2reply.len() > u16::MAX as usize {
+            let _ = msg.out_reply.send(Err(Error::Internal(
+                "Too many TCP queries in flight".into(),
+            )));
+            return Ok(());
+        }
+        while self.qid2reply.contains_key(&msg.out_query.qid) {
+            msg.out_query.qid = msg.out_query.qid.wrapping_add(1);
+        }
+        self.qid2reply
+            .insert(msg.out_query.qid, (orig_qid, msg.out_reply));
         if let Some(ref mut tcp_sock) = self.tcp {
             use tokio::io::AsyncWriteExt as _;
             let bytes = msg.out_query.serialise();
@@ -291,7 +307,7 @@ impl TcpNameserver {
     fn tcp_teardown(&mut self, err: Error) {
         self.tcp = None;
         log::trace!("Tearing down {} TCP channel: {}", self.addr, err);
-        for (_qid, chan) in self.qid2reply.drain() {
+        for (_qid, (_orig_qid, chan)) in self.qid2reply.drain() {
             chan.send(Err(Error::TcpConnection(format!(
                 "TCP channel closed before reply: {}",
                 err
